@@ -45,7 +45,7 @@ VALUES = [b'', b'1', b'v', b' padded\t', b'text/html', b'a=b', b'0123456789' * 3
 
 
 def n_cases(tier):
-    return 20000 if tier == 'quick' else 600000
+    return 20000 if tier == 'quick' else 400000
 
 
 def make_headers(rng, kind, tag):
